@@ -109,7 +109,7 @@ struct FileAst {
 }
 
 /// number of ways the value of a generated `@error` is written (see the printer)
-const ERROR_FORMS: u32 = 12;
+const ERROR_FORMS: u32 = 15;
 /// expected message of an `@error` whose text is not written down but has to equal what
 /// `@debug inspect(<same expression>)` on the line before delivered
 const SAME_AS_INSPECT: &str = "=inspect-of-the-line-before";
@@ -362,7 +362,11 @@ impl Printer {
                         8 => format!("(k1: (\"{}\", [x y]), \"k 2\": (n: null, t: true, e: ()))", m),
                         9 => format!("#ff0000 red rgba(0, 0, 0, 0.5) \"{}\" transparent", m),
                         10 => format!("calc(1px + 2%) \"{}\" () (1 2, 3 4) [[]]", m),
-                        _ => format!("join((), \"{}\", comma) unquote(\"a b\") \"#{{1 + 1}}x\" 10px10 -x", m),
+                        11 => format!("join((), \"{}\", comma) unquote(\"a b\") \"#{{1 + 1}}x\" 10px10 -x", m),
+                        // strings that need escaping when they are inspected
+                        12 => format!("\"{} a\\\\b c\\\\\"", m),
+                        13 => format!("\"{}\\a z\\9 y\\1f\"", m),
+                        _ => format!("'{} \"dq\" \\27 s #{{\"\\\\\"}}'", m),
                     };
                     if tag % ERROR_FORMS >= 5 {
                         self.stmt(indent, &format!("@debug inspect({})", value));
